@@ -1211,8 +1211,10 @@ func (k *Kernel) checkNextRoundPrecommitViewShift(ctx context.Context, s *kState
 	maj := tmconsensus.ByzantineMajority(vs.AvailablePower)
 	maxPow := vs.PrecommitBlockPower[vs.MostVotedPrecommitHash]
 	if maxPow >= maj {
-		// Need a test in place before handling the ready to commit case.
-		panic("TODO: handle a majority precommit for NextRound")
+		// The round we just jumped to is now the voting round and it already holds
+		// a majority precommit, so handle it exactly like a majority in the voting round:
+		// commit the block if we have it, or advance past a nil commit.
+		return k.checkVotingPrecommitViewShift(ctx, s)
 	}
 
 	if maxPow >= min {
